@@ -344,6 +344,10 @@ class RefDevice:
         return one * n
 
     def _txc(self, conn):
+        forced = getattr(self, "force_counter", None)
+        if forced is not None:
+            self.force_counter = None           # one packet with a chosen counter (clients do not check it)
+            return forced & 0xFFFF
         c = conn.state["tx_counter"]
         conn.state["tx_counter"] = (c + 1) & 0xFFFF
         return c
